@@ -767,7 +767,7 @@ impl Module for ProbeRx {
 
 /// The new link has carried nothing yet: it must be idle, and well separated messages on it are each delivered
 /// after exactly transmission time + latency.
-fn runtime_connect_probe(rng: &mut Rng) -> Vec<Finding> {
+pub fn runtime_connect_probe(rng: &mut Rng) -> Vec<Finding> {
     let bitrate = *rng.pick(&[8_000usize, 1_000_000, 80_000]);
     let latency = *rng.pick(&[0u64, 1_000_000, 30_000_000]);
     let drop = rng.chance(1, 2);
